@@ -9,6 +9,7 @@ P = ['C06']
 A = ['C06', 'C05']
 NS0 = 'old(self).yy_node_stack@'
 NS1 = 'final(self).yy_node_stack@'
+VS = 'old(self).yy_value_stack@'
 FRAME = ('only_the_node_stack_changes', 'final(self).yy_value_stack == old(self).yy_value_stack && final(self).yy_lexer == old(self).yy_lexer && final(self).yy_len == old(self).yy_len')
 
 def node(ctor, k):
@@ -55,13 +56,55 @@ def tail(name, ctor):
     return d
 
 # literal and name actions: the token value on top of the value stack becomes the node, unchanged (C07: the digit texts of a numeric token)
-VS = 'old(self).yy_value_stack@'
 def leaf(name, tok, node_expr, fields):
     d = act(name, 'X', 0)
     cond = '%s.len() >= 1 && %s[%s.len() - 1] is %s' % (VS, VS, VS, tok)
     d['ensures'] = [('the_token_value_becomes_the_node_unchanged', '(%s) ==> r is Ok && %s =~= %s.push(%s)' % (cond, NS1, NS0, node_expr % tuple('%s[%s.len() - 1]->%s_%d' % (VS, VS, tok, i) for i in range(fields)))),
                     ('no_such_token_nothing_done', '!(%s) ==> r is Ok && %s =~= %s' % (cond, NS1, NS0)), FRAME]
     return d
+
+TOP = '%s[%s.len() - 1]' % (NS0, NS0)
+VFRAME = ('token_values_unchanged', 'final(self).yy_value_stack == old(self).yy_value_stack && final(self).yy_len == old(self).yy_len')
+
+def custom(name, ensures, requires=None, frame=FRAME, props=None):
+    d = act(name, 'X', 0)
+    d['ensures'] = ensures + [frame]
+    if requires:
+        d['requires'] = requires
+    if props:
+        d['props'] = props
+    return d
+
+def rewrap(name, frm, to):
+    return custom(name, [('the_collected_items_become_the_node', '(%s.len() >= 1 && %s is %s) ==> r is Ok && %s =~= %s.subrange(0, %s.len() - 1).push(AstNode::%s(%s->%s_0))' % (NS0, TOP, frm, NS1, NS0, NS0, to, TOP, frm)),
+                         ('anything_else_is_dropped', '(%s.len() >= 1 && !(%s is %s)) ==> r is Ok && %s =~= %s.subrange(0, %s.len() - 1)' % (NS0, TOP, frm, NS1, NS0, NS0)),
+                         ('nothing_there_nothing_done', '%s.len() == 0 ==> r is Ok && %s =~= %s' % (NS0, NS1, NS0))])
+
+def constant(name, ctor):
+    return custom(name, [('an_empty_collection_node', 'r is Ok && %s.len() == %s.len() + 1 && %s.subrange(0, %s.len() as int) =~= %s && %s.last() is %s && %s.last()->%s_0@.len() == 0' % (NS1, NS0, NS1, NS0, NS0, NS1, ctor, NS1, ctor))])
+
+def scoped(name, outer, inner):
+    # for / some / every: the body on top, the iteration or quantified contexts below it; the temporary context of the construct is popped (unit purity states that half)
+    return custom(name, [('the_construct_over_its_contexts_and_its_body', '%s.len() >= 2 ==> r is Ok && %s =~= %s.subrange(0, %s.len() - 2).push(AstNode::%s(Box::new(%s[%s.len() - 2]), Box::new(AstNode::%s(Box::new(%s)))))'
+                          % (NS0, NS1, NS0, NS0, outer, NS0, NS0, inner, TOP)),
+                         ('too_few_operands_is_an_error', '%s.len() < 2 ==> r is Err' % NS0)], frame=VFRAME)
+
+EXTRA = [
+    scoped('for', 'For', 'EvaluatedExpression'), scoped('some', 'Some', 'Satisfies'), scoped('every', 'Every', 'Satisfies'),
+    rewrap('list', 'CommaList', 'List'), rewrap('unary_tests_negated', 'ExpressionList', 'NegatedList'),
+    constant('list_empty', 'CommaList'), constant('formal_parameters_empty', 'FormalParameters'), constant('empty_context', 'Context'),
+    custom('unary_tests_irrelevant', [('the_irrelevant_test', 'r is Ok && %s =~= %s.push(AstNode::Irrelevant)' % (NS1, NS0))]),
+    custom('formal_parameters_first', [('the_first_parameter_starts_the_list', '%s.len() >= 1 ==> r is Ok && exists |items: Vec<AstNode>| items@ == seq![%s] && %s =~= %s.subrange(0, %s.len() - 1).push(AstNode::FormalParameters(items))' % (NS0, TOP, NS1, NS0, NS0)),
+                                       ('too_few_operands_is_an_error', '%s.len() < 1 ==> r is Err' % NS0)]),
+    custom('function_invocation_no_parameters', [('an_invocation_with_no_arguments', '%s.len() >= 1 ==> r is Ok && exists |items: Vec<AstNode>| items@.len() == 0 && %s =~= %s.subrange(0, %s.len() - 1).push(AstNode::FunctionInvocation(Box::new(%s), Box::new(AstNode::PositionalParameters(items))))' % (NS0, NS1, NS0, NS0, TOP)),
+                                                 ('nothing_there_nothing_done', '%s.len() == 0 ==> r is Ok && %s =~= %s' % (NS0, NS1, NS0))]),
+    custom('path', [('the_property_of_the_name_token', '(%s.len() >= 1 && %s.len() >= 1 && %s[%s.len() - 1] is Name) ==> r is Ok && %s =~= %s.subrange(0, %s.len() - 1).push(AstNode::Path(Box::new(%s), Box::new(AstNode::Name(%s[%s.len() - 1]->Name_0))))' % (NS0, VS, VS, VS, NS1, NS0, NS0, TOP, VS, VS)),
+                    ('too_few_operands_is_an_error', '%s.len() < 1 ==> r is Err' % NS0)]),
+    custom('interval_end', [('closed_iff_the_bracket_read_is_a_right_bracket', '%s.len() >= 1 ==> r is Ok && %s =~= %s.subrange(0, %s.len() - 1).push(AstNode::IntervalEnd(Box::new(%s), %s[%s.len() - 1] is RightBracket))' % (NS0, NS1, NS0, NS0, TOP, VS, VS)),
+                            ('too_few_operands_is_an_error', '%s.len() < 1 ==> r is Err' % NS0)], requires=[('a_token_was_read', '%s.len() >= 1' % VS)]),
+    custom('interval_start', [('closed_iff_the_first_token_of_the_rule_is_a_left_bracket', '%s.len() >= 1 ==> r is Ok && %s =~= %s.subrange(0, %s.len() - 1).push(AstNode::IntervalStart(Box::new(%s), %s[%s.len() - old(self).yy_len] is LeftBracket))' % (NS0, NS1, NS0, NS0, TOP, VS, VS)),
+                              ('too_few_operands_is_an_error', '%s.len() < 1 ==> r is Err' % NS0)], requires=[('the_tokens_of_the_rule_are_on_the_value_stack', '1 <= old(self).yy_len && old(self).yy_len as int <= %s.len()' % VS)]),
+]
 
 BASE = [p for p in PU.UNIT['parts'] if p.get('kind') in ('item', 'vrs', 'text') and p not in PU.PARSER_PARTS] + [p for p in PU.PARSER_PARTS if p.get('kind') in ('item', 'vrs', 'text')]
 UNIT = {
@@ -71,7 +114,8 @@ UNIT = {
     'parts': BASE + [act(n, c, 2) for (n, c) in sorted(BINARY.items())] + [act(n, c, 3) for (n, c) in sorted(TERNARY.items())] + [act(n, c, 1) for (n, c) in sorted(UNARY.items())]
              + [act('negation', 'Neg', 1, lenient=True)] + [tail(n, c) for (n, c) in sorted(TAILS.items())]
              + [leaf('literal_numeric', 'Numeric', 'AstNode::Numeric(%s, %s)', 2), leaf('literal_boolean', 'Boolean', 'AstNode::Boolean(%s)', 1), leaf('literal_null', 'Null', 'AstNode::Null', 0),
-                leaf('literal_string', 'String', 'AstNode::String(%s)', 1), leaf('literal_at', 'String', 'AstNode::At(%s)', 1), leaf('name', 'Name', 'AstNode::Name(%s)', 1)],
+                leaf('literal_string', 'String', 'AstNode::String(%s)', 1), leaf('literal_at', 'String', 'AstNode::At(%s)', 1), leaf('name', 'Name', 'AstNode::Name(%s)', 1), leaf('key_name', 'Name', 'AstNode::ContextEntryKey(%s)', 1)]
+             + [p_ for p_ in PU.UNIT['parts'] if p_.get('key') in ('purity::Scope::pop',)] + [PU.lexfn('pop_from_scope', 'pop')] + EXTRA,
 }
 ASSUMPTIONS = ['A-grammar: which production calls which action, and that its operands are the nodes on top of the stack in written order, is the generated parse table (unit parser proves the driver follows the tables; '
                'BOUNDED operator-precedence-round-trip looks at the tables themselves)',
